@@ -51,11 +51,21 @@ def feedSeed (H : Bytes → Bytes) (cfg : Config) (hashLen : Nat) (st : OutSt By
     let data := slice seed c.1 c.2
     (st.feed (hashTruncate (H data) hashLen) data).1) st
 
+/-- The reader's raw rule (`archive.rs::chunk_stream`): a fetched chunk is taken as not
+compressed iff `source_size <op> stored.len()`, with the operator read from the source
+(`Gen.readerRawIf`; the documented format says `==`).  An operator the model does not know
+makes every chunk "compressed", which no theorem about round trips survives. -/
+def readerTakesRaw (sourceSize storedLen : Nat) : Bool :=
+  if Gen.readerRawIf = "==" then decide (sourceSize = storedLen)
+  else if Gen.readerRawIf = "<=" then decide (sourceSize ≤ storedLen)
+  else if Gen.readerRawIf = ">=" then decide (sourceSize ≥ storedLen)
+  else false
+
 /-- `CompressedChunk::decompress` + `ArchiveChunk::verify` for one fetched item. -/
 def decodeChunk (H : Bytes → Bytes) (decomp : Nat → Bytes → Nat → Option Bytes)
     (compr : Compr) (d : Descr) (stored : Bytes) : Option Bytes :=
   let raw : Option Bytes :=
-    if d.sourceSize = stored.length then some stored         -- stored size == source size: not compressed
+    if readerTakesRaw d.sourceSize stored.length then some stored   -- stored size == source size: not compressed
     else match compr with
       | some (algo, _) => decomp algo stored d.sourceSize
       | none => some stored
